@@ -73,7 +73,7 @@ impl TraitHandler for CloneEnumHandler {
 
             if variants.is_empty() {
                 if !contains_copy {
-                    clone_token_stream.extend(quote!(unreachable!()));
+                    clone_token_stream.extend(quote!(::core::unreachable!()));
                     clone_from_token_stream.extend(quote!(let _ = source;));
                 }
             } else {
